@@ -46,7 +46,15 @@ def main():
     src = os.path.join(wt, "seeded", variant)
     patch = os.path.join(src, "patch.diff")
     demo_src = os.path.join(src, "demo.rs")
-    demo_cmd = os.environ.get("DEMO_CMD", "cargo test -p embedded-cli --offline --test seeded_demo")
+    demo_cmd = os.environ.get("DEMO_CMD")
+    notes_path = os.path.join(src, "notes.md")
+    if not demo_cmd and os.path.exists(notes_path):
+        for line in open(notes_path):
+            if "DEMO_CMD:" in line:
+                demo_cmd = line.split("DEMO_CMD:", 1)[1].strip().strip("`").strip()
+                break
+    if not demo_cmd:
+        demo_cmd = "cargo test -p embedded-cli --offline --test seeded_demo"
     meta = dict(id=sid, property=prop, source=f"sub-agent given only the text of {prop}, scratch worktree {wt}", variant=variant)
     sh("git checkout -- . && rm -f embedded-cli/tests/seeded_demo.rs", cwd=wt)
     # 1. confirm in the scratch worktree
